@@ -39,7 +39,12 @@ RULE = ("every pair of lists (lengths 0..2 each over the proper intervals of 0..
         "(0..4 geometries a side, all nine kinds, arbitrary doubles); non-trivial = both lists non-empty")
 TRUSTED_BASE = ["checks/c07.py (build lists, list(match_geometries(...)), compute_affinity of every pair, encode; "
                 "indices +1, None -> [])"]
-ASSUMPTIONS = ["lattice cases use zero buffers and TimeStamp / TimeInterval / BoundingBox geometries: the exact rational IoU of "
+ASSUMPTIONS = ["every geometry object is constructed, derived by model_copy / attribute assignment from a used geometry elsewhere, or "
+               "deep-copied (case fields sp, tp); the reference affinities are computed on equal geometries constructed afresh: the "
+               "affinity of a pair is taken to be a function of the two geometries as values",
+               "'twin' lists (different kinds, identical coordinate literals) run at unit 1 s / 1 Hz with buffers 0.25 s / 0.5 Hz and are "
+               "judged on the observed matrix; lattice alphabets contain a multi-polygon with an interior ring (exact rectilinear IoU)",
+               "lattice cases use zero buffers and TimeStamp / TimeInterval / BoundingBox geometries: the exact rational IoU of "
                "Affinity.tla is the affinity under every reading of C06; a pair of zero-extent geometries (union 0) counts 0 as long as "
                "compute_affinity itself returns 0 there, otherwise the observed matrix judges the run",
                "random cases: optimality is decided on the observed affinities floored to 2^-20 (tolerance min(n,m) * 1e-6)"]
